@@ -136,12 +136,12 @@ def main():
                 if r:
                     print(json.dumps(r))
     elif cmd == "run":
-        ids = sys.argv[2:] or sorted(d for d in os.listdir(SEEDED) if os.path.isdir(os.path.join(SEEDED, d)))
+        ids = sys.argv[2:] or sorted(d for d in os.listdir(SEEDED) if os.path.isdir(os.path.join(SEEDED, d)) and d != "benign")
         props = registered_props()
         results = {}
         with cf.ThreadPoolExecutor(5) as ex:
             for r in ex.map(lambda s: run_one(s, props), ids):
-                own = r["id"].split("-")[0]
+                own = r["id"].split("-")[0].replace("R2", "")
                 status = "CAUGHT(own)" if own in r["fired"] else ("caught(other)" if r["fired"] else ("ERROR" if r["errors"] else "MISSED"))
                 print(f"{r['id']:8s} {status:14s} fired={ {k: v[:1] for k, v in r['fired'].items()} } errors={r['errors']}")
                 results[r["id"]] = r
